@@ -15,6 +15,9 @@ type mathIn struct {
 	Fn   string   `json:"fn"`   // "math.floor", ...
 	Bits []string `json:"bits"` // arguments: hex of math.Float64bits
 	Rep  int      `json:"rep,omitempty"`
+	// AsStr: finite arguments are passed as strings ("%.17g", which reads back exactly):
+	// luaL_checknumber / luaL_checkint convert them
+	AsStr bool `json:"as_str,omitempty"`
 }
 
 func fbits(f float64) string { return strconv.FormatUint(math.Float64bits(f), 16) }
@@ -80,6 +83,9 @@ func runMath(w *lib.Writer, c mathIn) {
 	for i, b := range c.Bits {
 		xs[i] = unbits(b)
 		largs[i] = lua.LNumber(xs[i])
+		if c.AsStr && !math.IsNaN(xs[i]) && !math.IsInf(xs[i], 0) {
+			largs[i] = lua.LString(strconv.FormatFloat(xs[i], 'g', 17, 64))
+		}
 		cargs[i] = coqNum(xs[i])
 	}
 	if fn == "random" {
@@ -204,7 +210,10 @@ func mathPool() []float64 {
 		5e-324, -5e-324, 1.5e-323, 2.2250738585072009e-308, 2.2250738585072014e-308, -2.2250738585072014e-308,
 		1 << 52, 1<<52 + 0.5, 1<<53 - 1, 1 << 53, 1<<53 + 2, -(1 << 53), 1 << 62, 1 << 63, 1 << 64,
 		math.MaxFloat64, -math.MaxFloat64, 1e300, 1e-300, 1e15 + 0.3, 4503599627370495.5, 0.49999999999999994,
-		math.Pi, math.E, 1e22, 123456.789, math.Inf(1), math.Inf(-1), math.NaN()}
+		math.Pi, math.E, 1e22, 123456.789, math.Inf(1), math.Inf(-1), math.NaN(),
+		// huge and tiny magnitudes (an intermediate product may overflow or underflow where the result does not)
+		2e306, -2e306, 1e307, 3e307, 5e307, 1e308, -1e308, 1.7e308, 9.9e307, 1.5e308, 1e200, -1e200, 1e154, 1.4e154,
+		1e-323, 1e-310, -1e-310, 3e-308, 1e-200, 1e-154, 4e-324 * 37, 2.5e-320}
 	for _, k := range []int{1, 10, 52, 53, 54, 63, 64, 1023, -1, -10, -1022, -1023, -1074} {
 		p = append(p, math.Ldexp(1, k), -math.Ldexp(1, k), math.Ldexp(3, k-1))
 	}
@@ -233,6 +242,10 @@ func mathCorpus(w *lib.Writer) {
 		mIn("max"), mIn("floor"), mIn("fmod", 1), mIn("floor", 1.5, 99),
 		mIn("random", 5, 5), mIn("random", -3, -1), mIn("random", 5, 3), mIn("random", 0), mIn("random", 1),
 		mIn("random", -(1 << 40), 1<<40), mIn("random", 1, 1, 7),
+		{Fn: "math.floor", Bits: []string{fbits(3.7)}, AsStr: true}, {Fn: "math.ldexp", Bits: []string{fbits(1), fbits(3)}, AsStr: true},
+		{Fn: "math.random", Bits: []string{fbits(4), fbits(4)}, AsStr: true}, {Fn: "math.max", Bits: []string{fbits(1), fbits(-2.5)}, AsStr: true},
+		{Fn: "math.fmod", Bits: []string{fbits(-7), fbits(3)}, AsStr: true},
+		mIn("deg", 2e306), mIn("rad", 1e308), mIn("rad", math.MaxFloat64), mIn("deg", 5e-324), mIn("rad", 5e-324), // x*180/pi overflowed (fixed)
 		mIn("pow", 2, 10), mIn("atan2", 1, 2),
 		mIn("pow", math.Copysign(0, -1), 0.5), mIn("pow", math.Inf(-1), 0.5), // seeded C15-1: pow is not sqrt at -0 / -Inf
 		mIn("pow", math.Copysign(0, -1), -0.5), mIn("pow", math.Inf(-1), -0.5), mIn("pow", -8, 1.0/3), mIn("pow", 0, -1),
@@ -250,6 +263,13 @@ func mathCorpus(w *lib.Writer) {
 }
 
 func genMath(w *lib.Writer, r *lib.Rand, tier string) {
+	sr := r.Fork()
+	runMath := func(w *lib.Writer, c mathIn) {
+		if len(c.Bits) > 0 && sr.Intn(100) < 12 {
+			c.AsStr = true
+		}
+		runMath(w, c)
+	}
 	pool := mathPool()
 	pick := func() float64 {
 		if r.Chance(75) {
